@@ -763,9 +763,7 @@ func (vc *VC) havocModSet(st *State, pre *State, ms *ModSet, allowFreshWrites bo
 				old := vc.name("old", inner, Sel(h, m.Reg))
 				na := vc.fresh("hv", inner)
 				vc.define(fmt.Sprintf("(forall ((i Int)) (! (=> (not (and (<= %s i) (< i %s))) (= (select %s i) (select %s i))) :pattern ((select %s i))))", m.Lo, m.Hi, na, old, na))
-				if n == byteHeap {
-					vc.define(fmt.Sprintf("(forall ((i Int)) (! (and (<= 0 (select %s i)) (<= (select %s i) 255)) :pattern ((select %s i))))", na, na, na))
-				}
+
 				h = vc.forceName("H_"+n, sort, Sto(h, m.Reg, na))
 			}
 			st.heap[n] = h
